@@ -1,6 +1,6 @@
 (* C19 — lemmas.  Everything is about the repaired behaviour
    ([fallthrough = false]) unless it says otherwise. *)
-From Coq Require Import ZArith List Bool QArith Qminmax Lia Lqa Psatz.
+From Coq Require Import ZArith List Bool QArith Qminmax Lia Lqa.
 From Verif Require Import C19.Model.
 Import ListNotations.
 Local Open Scope nat_scope.
